@@ -1,6 +1,8 @@
 // C14: property harness for Shark's multi-objective optimizers.
 // Line protocol: one op per line on stdin, exactly one observation line on stdout.
-//   opt <algo> <problem> <nvars> <nobj> <mu> <seed> <steps> <refmode>
+//   opt <algo> <problem> <nvars> <nobj> <mu> <seed> <steps> <refmode> [<initmode>]
+// initmode (optional, default 0): 0 = init(f) (the optimizer proposes its own start points), 1/2/3 = init(f, points)
+// with fewer (max(1, mu/2)) / exactly mu / more (mu + 3) feasible start points drawn from the problem.
 // Runs the REAL optimizer with a local, seeded rng and checks after init and after
 // every step with an independent oracle:
 //   size       |solution()| == mu() (constant; == requested mu for mocma/ssmocma/smsemoa/nsga2)
@@ -125,7 +127,7 @@ struct Probe: public Base{
 
 struct Config{
 	std::string algo, problem;
-	std::size_t nvars, nobj, mu, seed, steps, refmode;
+	std::size_t nvars, nobj, mu, seed, steps, refmode, initmode;
 	bool bounded;       // SBX + polynomial mutation: box clause applies
 	bool exactMu;       // mu() must equal the requested mu
 	bool hvClause;      // steady-state hypervolume selection with fixed reference
@@ -290,7 +292,13 @@ static std::string run(Config const& c){
 			setReference(opt, r);
 		}
 		f->init();
-		opt.init(*f);
+		if(c.initmode == 0) opt.init(*f);
+		else{
+			std::size_t k = c.initmode == 1 ? std::max<std::size_t>(1, c.mu / 2) : (c.initmode == 2 ? c.mu : c.mu + 3);
+			std::vector<RealVector> pts(k);
+			for(std::size_t i = 0; i != k; ++i) pts[i] = f->proposeStartingPoint();
+			opt.init(*f, pts);
+		}
 		double hvPrev = 0;
 		std::size_t sizeAtInit = opt.solution().size();
 		checkState(opt, *oracleF, c, 0, sizeAtInit, ref, hvPrev, rem);
@@ -321,13 +329,14 @@ static std::string handle(std::string const& line){
 			start = pos + 1;
 		}
 	}
-	if(t.size() != 9 || t[0] != "opt") return "bad-op";
+	if((t.size() != 9 && t.size() != 10) || t[0] != "opt") return "bad-op";
 	std::vector<std::size_t> num;
-	if(!vh::allNat(t, 3, num) || num.size() != 6) return "bad-op";
+	if(!vh::allNat(t, 3, num) || (num.size() != 6 && num.size() != 7)) return "bad-op";
 	for(std::size_t i = 3; i != t.size(); ++i) if(t[i].size() > 9) return "bad-op";
 	Config c;
 	c.algo = t[1]; c.problem = t[2];
-	c.nvars = num[0]; c.nobj = num[1]; c.mu = num[2]; c.seed = num[3]; c.steps = num[4]; c.refmode = num[5];
+	c.nvars = num[0]; c.nobj = num[1]; c.mu = num[2]; c.seed = num[3]; c.steps = num[4]; c.refmode = num[5]; c.initmode = num.size() == 7 ? num[6] : 0;
+	if(c.initmode > 3) return "bad-op";
 	static char const* problems[] = {"zdt1","zdt2","zdt3","zdt4","zdt6","dtlz1","dtlz2","dtlz4","dtlz7"};
 	if(std::find(problems, problems + 9, c.problem) == problems + 9) return "bad-op";
 	if(c.nobj != 2 && c.nobj != 3) return "bad-op";
